@@ -243,6 +243,9 @@ func (ex *Exec) everyArray(n *CCall) (string, Sort, bool) {
 	}
 	switch a := n.Args[0].(type) {
 	case *CIdent:
+		if a.Name == "lockstate" {
+			return "LockState", ArraySort(SRef, SInt), true
+		}
 		if g, ok := w.CS.Ghosts[a.Name]; ok {
 			if len(g.Params) == 1 {
 				return "G_" + a.Name, ArraySort(g.Params[0], g.Result), true
